@@ -92,6 +92,17 @@ void Logger::processMessage(QtMsgType type, const QMessageLogContext &context,
 
     LogMessage lmsg(type, context, message);
     process(lmsg);
+
+    // Qt aborts the process as soon as the handler returns from a fatal message: whatever is
+    // still queued or buffered at that point would never reach the sinks
+    if (type == QtFatalMsg) {
+#ifndef QTLOGGER_NO_THREAD
+        if (ownThreadIsRunning() && QThread::currentThread() != ownThread()) {
+            resetOwnThread();
+        }
+#endif
+        flush();
+    }
 }
 
 QTLOGGER_DECL_SPEC
